@@ -183,6 +183,15 @@ where
                 check!(addr(bump.stats().current_chunk().unwrap().bump_position()) == pos_before, "C07: failed allocation moved the bump position");
             }
             check!(bump.stats().count() == 1, "C07: failed allocation linked a chunk");
+            // C13: "growing [the newest] allocation in an upward arena with enough room returns the same address" - it
+            // must in particular not fail (found missing by a third-round seeded change: the Ok arm alone cannot see a
+            // grow that gives up although the chunk has room)
+            if St::UP && (op == 2 || op == 3) && lb.size() % St::MIN_ALIGN == 0 {
+                let ce = addr(bump.stats().current_chunk().unwrap().content_end());
+                let fits = addr(b) % ln.align() == 0 && ln.size() <= ce - addr(b);
+                kani::cover!(!fits, "[op2-up-b0] grow failed because there is no room");
+                check!(!fits, "C13: growing the newest block failed although the chunk has room for it");
+            }
             if budget_for_op == 0 {
                 // C12/C07 sanity: it really did not fit
                 kani::cover!(true, "[b0] failure path taken");
@@ -334,6 +343,10 @@ step_harness!(step_up1_set_nodealloc_b0, VA, S<1, true, true, false, true>, Entr
 step_harness!(step_down1_set_noshrink_b0, VA, S<1, false, true, true, false>, Entry::Bump, 0, 32, ALL);
 step_harness!(step_up1_set_noshrink_b0, VA, S<1, true, true, true, false>, Entry::Bump, 0, 32, ALL);
 step_harness!(step_down4_bump_b0, VA, S<4, false>, Entry::Bump, 0, 32, ALL);
+// grow / grow_zeroed of the newest block only, upward with MIN_ALIGN > 1 (the in-place clause of C13 at every position;
+// cheap enough for the quick tier)
+step_harness!(step_up8_grow_b0, VA, S<8, true>, Entry::Bump, 0, 32, 0b0001100);
+step_harness!(step_up4_grow_nodealloc_b0, VA, S<4, true>, Entry::NoDealloc, 0, 32, 0b0001100);
 step_harness!(step_up1_other_b0, VA, S<1, true>, Entry::Bump, 0, 32, ON_A);
 step_harness!(step_down1_other_b0, VA, S<1, false>, Entry::Bump, 0, 32, ON_A);
 step_harness!(step_down4_other_nodealloc_b0, VA, S<4, false>, Entry::NoDealloc, 0, 32, ON_A);
